@@ -1,0 +1,66 @@
+//go:build verif
+
+package net
+
+import (
+	"net"
+
+	"github.com/fatedier/frp/verif"
+)
+
+//verif:guarded InternalListener mu closed
+
+// Monitor invariant: the listener's queue is closed exactly when it is marked closed.
+//
+//verif:invariant InternalListener mu
+func (l *InternalListener) verifInvClosed() bool {
+	return l.acceptCh != nil && l.closed == verif.Closed(l.acceptCh)
+}
+
+//verif:contract ~/pkg/util/net.NewInternalListener
+//verif:props C11 C10
+func verif_NewInternalListener() {
+	l := NewInternalListener()
+	verif.Ensures(l != nil && l.verifInvClosed() && !l.closed, "open_listener")
+}
+
+// Accept: a connection taken off the queue is handed to the caller; an error
+// means nothing was taken (the queue is closed and empty) - a queued connection
+// is never dropped, so whoever accepts it can close it.
+//
+//verif:contract (*~/pkg/util/net.InternalListener).Accept
+//verif:props C11 C10
+func verif_InternalListener_Accept(l *InternalListener) {
+	verif.ResetEvents()
+	conn, err := l.Accept()
+	verif.Ensures(verif.CallCount("recv") == 1, "takes_one_item")
+	if verif.RetBool("recv", 0) {
+		verif.Ensures(err == nil && conn == verif.NthArg[net.Conn]("recv", 0, 1), "dequeued_connection_is_returned")
+	} else {
+		verif.Ensures(err != nil, "closed_and_drained_is_an_error")
+	}
+}
+
+// PutConn: success means the connection is queued or (queue full) closed; a
+// closed listener is reported to the caller, who then closes the connection.
+//
+//verif:contract (*~/pkg/util/net.InternalListener).PutConn
+//verif:props C11 C08
+func verif_InternalListener_PutConn(l *InternalListener, conn net.Conn) {
+	verif.ResetEvents()
+	err := l.PutConn(conn)
+	if err == nil {
+		verif.Ensures(verif.Sent(l.acceptCh, conn) || verif.CalledWith("net.Conn).Close", 0, conn), "queued_or_closed")
+	} else {
+		verif.Ensures(verif.Recovered(), "error_only_when_listener_closed")
+	}
+}
+
+// Close closes the queue once, whatever number of times it is called.
+//
+//verif:contract (*~/pkg/util/net.InternalListener).Close
+//verif:props C10 C16
+func verif_InternalListener_Close(l *InternalListener) {
+	l.Close()
+	verif.Ensures(l.closed && verif.Closed(l.acceptCh), "closed_after")
+}
